@@ -19,9 +19,9 @@ from vlib import log
 PREFIX = '<<"MBT", "'
 
 
-def export(cfg, out_path, timeout=1500):
-    """run TLC on MCDbExport with cfg; write one JSON history per line; returns (histories, TlcResult)"""
-    r = vlib.tlc("MCDbExport", cfg, workers=4, timeout=timeout, xmx="6g", tag="dbmbt")
+def export(cfg, out_path, timeout=1500, module="MCDbExport", per_state=False):
+    """run TLC on the export module with cfg; write one JSON history per line; returns (histories, TlcResult)"""
+    r = vlib.tlc(module, cfg, workers=4, timeout=timeout, xmx="6g", tag="dbmbt")
     vlib.require_mc_ok(r, cfg)
     if r.violated:
         raise vlib.ToolError("DbModel violates its own invariant %s (specification error)" % r.violated)
@@ -36,20 +36,26 @@ def export(cfg, out_path, timeout=1500):
             json.loads(s)
             o.write(s + "\n")
             n += 1
-    if n == 0 or n != r.generated - 1:
-        raise vlib.ToolError("MCDbExport printed %d histories for %d generated states" % (n, r.generated))
+    want = r.distinct if per_state else r.generated - 1
+    if n == 0 or n != want:
+        raise vlib.ToolError("%s printed %d histories, expected %d (%d generated, %d distinct)" % (module, n, want, r.generated, r.distinct))
     return n, r
 
 
-def run(prop, tier, verdict, work, totals):
+def run(prop, tier, verdict, work, totals, graph=False):
+    """graph=False: MCDbExport, one history per TRANSITION of the bounded DbModel (mutating query forms);
+    graph=True: MCGraphExport, one history per distinct STATE of the bounded graph model, and every search of the family
+    (each element as origin, forward / reverse, breadth / depth first, elements search) on the graph it builds."""
     t0 = time.time()
     thorough = tier == "thorough"
     bins = vlib.build(["vdb"])
     vdb = os.path.join(bins, "vdb")
-    hist = os.path.join(work, "mbt_histories.ndjson")
-    n, r = export("MCDbExport_thorough.cfg" if thorough else "MCDbExport.cfg", hist)
+    module = "MCGraphExport" if graph else "MCDbExport"
+    key = "mbt_search_family_on_every_graph_of_bounded_model" if graph else "mbt_every_transition_of_bounded_model"
+    hist = os.path.join(work, "mbt_histories_%s.ndjson" % module)
+    n, r = export(module + ("_thorough.cfg" if thorough else ".cfg"), hist, module=module, per_state=graph)
     lines = open(hist).read().splitlines()
-    jobs = 12 if thorough else 4
+    jobs = 12 if thorough else (8 if graph else 4)
     per = (len(lines) + jobs - 1) // jobs
     chunks = []
     for j in range(jobs):
@@ -63,11 +69,11 @@ def run(prop, tier, verdict, work, totals):
 
     def one(ch):
         j, p, first, cnt = ch
-        out = os.path.join(work, "mbt_trace_%d.ndjson" % j)
+        out = os.path.join(work, "mbt_trace_%s_%d.ndjson" % (module, j))
         # chunk j % 4 == 0 runs on the file-backed variants in lock-step, the others in memory only
         variants = "memory,file,mapped,any_file" if j % 4 == 0 else "memory"
         rr = vlib.run_bin(vdb, ["mbt", "--in", p, "--out", out, "--work", os.path.join(work, "mbtw%d" % j),
-                                "--first", first, "--variants", variants], timeout=2400)
+                                "--first", first, "--variants", variants, "--searches", 1 if graph else 0], timeout=2400)
         if rr.returncode != 0:
             return {"chunk": j, "died": (rr.stderr or "")[-300:], "out": out, "first": first}
         summ = json.loads(rr.stdout.strip().splitlines()[-1])
@@ -81,9 +87,10 @@ def run(prop, tier, verdict, work, totals):
     rejs = [y for x in results for y in x.get("rej", [])]
     died = [x for x in results if "died" in x]
     ms = vlib.sum_keys([x["summary"] for x in results if "summary" in x],
-                       ["histories", "steps", "steps_ok", "steps_failed", "reopened", "aborted_runs"])
-    log("[%s] MBT (MCDbExport, %d transitions of %d distinct states, depth %d): histories=%d accepted=%d rejected=%d "
-        "events=%d died=%d %.0fs %s" % (prop, n, r.distinct, r.depth, ms["histories"], acc, len(rejs), checked, len(died), time.time() - t0, ms))
+                       ["histories", "steps", "steps_ok", "steps_failed", "reopened", "aborted_runs", "searches", "searches_nontrivial"])
+    log("[%s] MBT (%s, %d histories from %d distinct states, depth %d): histories=%d accepted=%d rejected=%d "
+        "events=%d died=%d %.0fs %s" % (prop, module, n, r.distinct, r.depth, ms["histories"], acc, len(rejs), checked, len(died),
+                                        time.time() - t0, ms))
     for x in died:
         verdict.report("mbt:replay-died", "vdb mbt died on a TLC-generated history (chunk %d): %s" % (x["chunk"], x["died"]),
                        {"chunk_first_history": x["first"], "stderr": x["died"]})
@@ -98,7 +105,9 @@ def run(prop, tier, verdict, work, totals):
     totals["events_checked"] += checked
     totals["mutations"] += ms["steps"]
     totals["mutations_failed"] += ms["steps_failed"]
-    totals["per_profile"]["mbt_every_transition_of_bounded_model"] = {
-        "transitions_replayed": n, "distinct_model_states": r.distinct, "depth": r.depth, "accepted": acc,
+    totals["searches"] += ms["searches"]
+    totals["searches_nontrivial"] += ms["searches_nontrivial"]
+    totals["per_profile"][key] = {
+        "histories_replayed": n, "searches": ms["searches"], "distinct_model_states": r.distinct, "depth": r.depth, "accepted": acc,
         "rejected": len(rejs), "events": checked, "steps_ok": ms["steps_ok"], "steps_failed": ms["steps_failed"],
         "reopened_before_dump": ms["reopened"], "tlc": r.summary()}
